@@ -301,6 +301,10 @@ func GenStructType(t *rapid.T, p Profile, depth int) *Type {
 			}
 		case 3:
 			tags = append(tags, fmt.Sprintf(`bexpr:"%s,omitempty"`, pick(t, tagNames, "tn")))
+		case 4:
+			// options only, no name: the selector library then reaches the field neither by a tag name nor by
+			// its Go name (only by the empty part)
+			tags = append(tags, `bexpr:",omitempty"`)
 		}
 		if p.Hidden {
 			switch rapid.IntRange(0, 5).Draw(t, "altc") {
@@ -308,6 +312,8 @@ func GenStructType(t *rapid.T, p Profile, depth int) *Type {
 				tags = append(tags, fmt.Sprintf(`%s:"%s"`, AltTag, pick(t, tagNames, "atn")))
 			case 1:
 				tags = append(tags, fmt.Sprintf(`%s:"-"`, AltTag))
+			case 2:
+				tags = append(tags, fmt.Sprintf(`%s:",omitempty"`, AltTag))
 			}
 		}
 		f.Tag = strings.Join(tags, " ")
